@@ -32,6 +32,25 @@ static int vdec(const void* p, std::size_t len) {
     for (std::size_t i = 0; i < len / 4; i++) if (((const int*)p)[i] != id) return -2;
     return id;
 }
+// inline values (inl=1): the value type is std::uintptr_t, the id is the value itself (stored in the slot word, no heap object)
+static bool g_inl = false;
+static int vdeci(const void* p) { return p == nullptr ? -1 : (int)(std::uintptr_t)p; }
+static std::string valjson_inl(link_or_value* lv) { value* vp = lv->get_value(); if (!vp) return "[\"N\"]"; return "[\"V\"," + std::to_string((int)(std::uintptr_t)vp) + "]"; }
+static status xput(Token tk, tree_instance* ti, const std::string& k, int id, bool uniq, inserted_node_info* info) {
+    if (g_inl) { std::uintptr_t v = (std::uintptr_t)id; return put<std::uintptr_t>(tk, ti, k, &v, uniq, sizeof(std::uintptr_t), nullptr, static_cast<value_align_type>(alignof(std::uintptr_t)), info); }
+    int buf[8]; venc(id, buf); return put<char>(tk, ti, k, (char*)buf, uniq, vlen(id), nullptr, static_cast<value_align_type>(alignof(char)), info);
+}
+static status xget(tree_instance* ti, const std::string& k, int& rv) {
+    if (g_inl) { std::pair<std::uintptr_t*, std::size_t> out{nullptr, 0}; status rc = get<std::uintptr_t>(ti, k, out); rv = rc == status::OK ? vdeci(out.first) : -1; return rc; }
+    std::pair<char*, std::size_t> out{nullptr, 0}; status rc = get<char>(ti, k, out); rv = rc == status::OK ? vdec(out.first, out.second) : -1; return rc;
+}
+template<class NV>
+static status xscan(tree_instance* ti, const std::string& l, scan_endpoint le, const std::string& r, scan_endpoint re, std::vector<std::pair<std::string, int>>& res, NV* nv, std::size_t max, bool rtl) {
+    if (g_inl) { std::vector<std::tuple<std::string, std::uintptr_t*, std::size_t>> tl; status rc = scan<std::uintptr_t>(ti, l, le, r, re, tl, nv, max, rtl);
+        for (auto& e : tl) res.push_back({std::get<0>(e), vdeci(std::get<1>(e))}); return rc; }
+    std::vector<std::tuple<std::string, char*, std::size_t>> tl; status rc = scan<char>(ti, l, le, r, re, tl, nv, max, rtl);
+    for (auto& e : tl) res.push_back({std::get<0>(e), vdec(std::get<1>(e), std::get<2>(e))}); return rc;
+}
 static std::string valjson(link_or_value* lv) { value* vp = lv->get_value(); if (!vp) return "[\"N\"]"; return "[\"V\"," + std::to_string(vdec(value::get_body(vp), value::get_len(vp))) + "]"; }
 static std::string kb(unsigned char a) { return std::string(1, (char)a); }
 // ---- scenario families: initial content + key universe for the operations
@@ -63,6 +82,14 @@ static Scn make_scenario(const std::string& fam) {
         for (int i = 1; i <= 7; i++) s.init.push_back(kb(10 + i));        // P = 10, 11..17, 20..80 : 15 entries
         int keep = 9 + rng() % 8; for (int i = 9; i <= 16; i++) if (i != keep) s.prune.push_back(kb(10 * i));
         s.uni.push_back(kb(10 * keep)); s.uni.push_back(kb(rng() % 2 ? 18 : 55)); s.uni.push_back(kb(rng() % 2 ? 170 : 85)); if (rng() % 2) s.uni.push_back(kb(200));
+    } else if (fam == "collapse2") {  // two interior levels: root N -> X = [S (full border), E (one key)], N -> right interior.  Removing E's key collapses X
+        // (S takes X's place in N, N's version unchanged) while S splits and a third thread is on its way N -> X -> S
+        auto k2 = [](int v) { std::string k; k.push_back((char)(1 + v / 250)); k.push_back((char)(1 + v % 250)); return k; };
+        for (int i = 0; i < 136; i++) s.init.push_back(k2(i * 10));      // ascending: 17 borders of 8, two interiors below the root
+        for (int i = 1; i <= 7; i++) s.init.push_back(k2(i));             // S = {0,1..7,10,..,70}: 15 entries
+        for (int i = 16; i < 64; i++) s.prune.push_back(k2(i * 10));      // borders 2..7 of the left interior emptied: X = [S, E]
+        for (int i = 8; i < 15; i++) s.prune.push_back(k2(i * 10));       // E = {150}
+        s.uni = {k2(150), k2(8), k2(75), k2(70)};
     } else if (fam == "links") {      // layer-0 border that holds only links: 2-3 prefixes with 1-3 keys below each; short keys are absent
         std::vector<std::string> pf = {std::string(8, 'p'), std::string(8, 'q'), std::string(8, 'r')}; int np = 2 + rng() % 2;
         for (int i = 0; i < np; i++) { int n = 1 + rng() % 3; for (int j = 0; j < n; j++) s.init.push_back(pf[i] + kb(10 + 10 * j)); }
@@ -101,7 +128,7 @@ int main(int argc, char** argv) {
     for (int i = 1; i < argc; i++) { std::string a = argv[i]; auto p = a.find('='); if (p != std::string::npos) A[a.substr(0, p)] = a.substr(p + 1); }
     vh::install_fault_handlers(argi("alarm", 120));
     long seed = argi("seed", 1), nscn = argi("scenarios", 20), runs = argi("runs", 10), nth = argi("threads", 2), opsper = argi("opsper", 2);
-    long directed = argi("directed", 0); const bool rep = argi("rep", 0) != 0;
+    long directed = argi("directed", 0); const bool rep = argi("rep", 0) != 0; g_inl = argi("inl", 0) != 0;
     long pscan = argi("scans", 0), piscan = argi("iscans", 0), pre_max = argi("premax", 400);
     std::string fam = args("family", "border"), sched = args("sched", "random");
     rng.seed(seed);
@@ -132,7 +159,7 @@ int main(int argc, char** argv) {
             else { long y = rng() % 100; o.kind = y < 30 ? "get" : y < 55 ? "put" : y < 70 ? "uput" : "rem"; o.k = k; o.uniq = o.kind == "uput"; }
             o.t = (int)t + 1; prog[t].push_back(o); } }
         // directed templates (every other scenario of the non-DDL families): patterns that random programs rarely produce
-        if (fam != "ddl" && fam != "pair" && fam != "chain" && nth >= 2 && (sc % 2 == 1 || directed == 1) && directed != 2 && !scn.init.empty()) {
+        if (fam != "ddl" && fam != "pair" && fam != "chain" && fam != "collapse2" && nth >= 2 && (sc % 2 == 1 || directed == 1) && directed != 2 && !scn.init.empty()) {
             auto rd = [&](std::size_t n) { return (std::size_t)(rng() % n); };
             std::vector<std::string> sorted_init = scn.init; std::sort(sorted_init.begin(), sorted_init.end());
             std::string x = scn.uni[rd(scn.uni.size())]; if (std::find(scn.init.begin(), scn.init.end(), x) == scn.init.end()) x = sorted_init[rd(sorted_init.size())];
@@ -196,6 +223,16 @@ int main(int argc, char** argv) {
         }
         // directed=4 (family pair): both borders under the interior root are emptied at the same time by two removers (root collapse while
         // the sibling that becomes root is being deleted itself); a third thread reads / re-inserts
+        if (fam == "collapse2" && nth >= 3) {
+            auto mk = [&](const char* kind, const std::string& k) { Op o; o.kind = kind; o.k = k; return o; };
+            for (auto& v : prog) v.clear();
+            prog[0].push_back(mk("rem", scn.uni[0]));                                   // D: empties E, X collapses
+            prog[1].push_back(mk("put", scn.uni[1]));                                   // W: splits S
+            long y = rng() % 4;                                                           // P: on its way through N and X to the upper half of S
+            prog[2].push_back(y == 0 ? mk("get", scn.uni[3]) : y == 1 ? mk("rem", scn.uni[3]) : mk("put", scn.uni[2]));
+            if (rng() % 3 == 0) prog[2].push_back(mk("get", scn.uni[2]));
+            for (long t = 0; t < nth; t++) for (auto& o : prog[t]) o.t = (int)t + 1;
+        }
         if (directed == 4 && fam == "pair" && nth >= 2) {
             std::vector<std::string> left, right; for (auto& k : scn.init) if (std::find(scn.prune.begin(), scn.prune.end(), k) == scn.prune.end()) ((unsigned char)k[0] < 90 ? left : right).push_back(k);
             if (!left.empty() && !right.empty()) {
@@ -213,6 +250,11 @@ int main(int argc, char** argv) {
             for (int a = 0; a < nth; a++) for (long k = 0; k <= pre_max; k++) { std::vector<std::pair<int, long>> p; if (k > 0) p.push_back({a, k}); for (int b = 0; b < nth; b++) if (b != a) p.push_back({b, 1000000}); p.push_back({a, 1000000}); plans.push_back(p); }
             nsched = (long)plans.size();
         }
+        // pre2 (three threads, roles of the collapse2 family: 0 = D, 1 = W, 2 = P): W runs until just before it locks its border, D runs
+        // until it holds the lock of the interior it collapses, then W, P, D, P, W, P (and W, P, D, W, P) each as far as they get.  The two windows are taken
+        // from two solo runs (first lock CAS of W; the last two lock CASes of D = collapsing interior and its parent)
+        long pW = -1, pX = -1, pN = -1;
+        if (sched == "pre2") { plans.push_back({{1, 1000000}, {0, 1000000}, {2, 1000000}}); plans.push_back({{0, 1000000}, {1, 1000000}, {2, 1000000}}); nsched = 2; vs::S.record = true; }
         std::vector<bool> thread_len_known(nth, false); std::vector<long> thread_len(nth, 0);
         for (long r = 0; r < nsched; r++) {
             if (sched == "pre1") { int a = plans[r].size() == (std::size_t)nth ? -1 : plans[r][0].first; long k = a < 0 ? 0 : plans[r][0].second;
@@ -221,7 +263,7 @@ int main(int argc, char** argv) {
             tree_instance ti_local; const bool ddl = fam == "ddl"; tree_instance& ti = ddl ? *storage::get_storages() : ti_local;
             Token setup{}; enter(setup); std::vector<std::pair<std::string, int>> initv;
             if (ddl) for (auto& k : scn.init) { create_storage(k); initv.push_back({k, 1}); }
-            else for (auto& k : scn.init) { int id = ++vctr; int buf[8]; venc(id, buf); put<char>(setup, &ti, k, (char*)buf, false, vlen(id)); initv.push_back({k, id}); }
+            else for (auto& k : scn.init) { int id = ++vctr; xput(setup, &ti, k, id, false, nullptr); initv.push_back({k, id}); }
             for (auto& k : scn.prune) { remove(setup, &ti, k); initv.erase(std::remove_if(initv.begin(), initv.end(), [&](const std::pair<std::string, int>& e) { return e.first == k; }), initv.end()); }
             std::vector<Token> tok(nth); for (auto& t : tok) enter(t);
             std::vector<std::vector<Op>> ops = prog; for (auto& v : ops) for (auto& o : v) if (o.kind == "put" || o.kind == "uput") o.v = ++vctr;
@@ -230,16 +272,15 @@ int main(int argc, char** argv) {
             for (long t = 0; t < nth; t++) bodies.push_back([&, t] {
                 for (auto& o : ops[t]) {
                     o.inv = ++g_seq;
-                    if (o.kind == "get") { std::pair<char*, std::size_t> out{nullptr, 0}; status rc = get<char>(&ti, o.k, out); o.st = vh::stname(rc); o.rv = rc == status::OK ? vdec(out.first, out.second) : -1; }
-                    else if (o.kind == "put" || o.kind == "uput") { int buf[8]; venc(o.v, buf); inserted_node_info info{}; o.li0 = vs::S.log.size();
-                        status rc = put<char>(tok[t], &ti, o.k, (char*)buf, o.uniq, vlen(o.v), nullptr, static_cast<value_align_type>(alignof(char)), rep ? &info : nullptr); o.st = vh::stname(rc);
+                    if (o.kind == "get") { status rc = xget(&ti, o.k, o.rv); o.st = vh::stname(rc); }
+                    else if (o.kind == "put" || o.kind == "uput") { inserted_node_info info{}; o.li0 = vs::S.log.size();
+                        status rc = xput(tok[t], &ti, o.k, o.v, o.uniq, rep ? &info : nullptr); o.st = vh::stname(rc);
                         o.li1 = vs::S.log.size(); o.mod = info.modified_nvp; o.cre = info.created_nvp; }
                     else if (o.kind == "rem") { status rc = remove(tok[t], &ti, o.k); o.st = vh::stname(rc); }
                     else if (o.kind == "create") { status rc = create_storage(o.k); o.st = vh::stname(rc); o.v = 1; }
                     else if (o.kind == "delete") { status rc = delete_storage(o.k); o.st = vh::stname(rc); }
                     else if (o.kind == "find") { status rc = find_storage(o.k); o.st = vh::stname(rc); o.rv = rc == status::OK ? 1 : -1; }
-                    else if (o.kind == "scan") { std::vector<std::tuple<std::string, char*, std::size_t>> tl; status rc = scan<char>(&ti, o.l, o.le, o.r, o.re, tl, &o.nv, o.max, o.rtl); o.st = vh::stname(rc);
-                        for (auto& e : tl) o.tl.push_back({std::get<0>(e), vdec(std::get<1>(e), std::get<2>(e))}); }
+                    else if (o.kind == "scan") { status rc = xscan(&ti, o.l, o.le, o.r, o.re, o.tl, &o.nv, o.max, o.rtl); o.st = vh::stname(rc); }
                     else if (o.kind == "iscan") {
                         // through the tree_instance overload (no storage lookup); INF left endpoint is normalised as the named API does
                         std::string lk = o.l; scan_endpoint le = o.le; if (le == scan_endpoint::INF) { lk = ""; le = scan_endpoint::INCLUSIVE; }
@@ -248,7 +289,7 @@ int main(int argc, char** argv) {
                         o.st = vh::stname(rc); long n = 0;
                         while (rc == status::OK) { std::string fk = ctx->full_key(); value* dummy = nullptr; (void)dummy;
                             // the cursor returns only the body pointer: the length is recovered from the value header in front of it
-                            int id = val ? *(int*)val : -1; o.tl.push_back({fk, (val && id > 0) ? vdec(val, vlen(id)) : -1}); n++;
+                            int id = g_inl ? vdeci(val) : val ? *(int*)val : -1; o.tl.push_back({fk, g_inl ? id : (val && id > 0) ? vdec(val, vlen(id)) : -1}); n++;
                             if (o.limit >= 0 && n > o.limit) break; rc = iscan_next(ctx, val, cb); }
                         o.end = vh::stname(rc); if (ctx) iscan_close(ctx);
                     }
@@ -257,11 +298,11 @@ int main(int argc, char** argv) {
             });
             // describe the run (also printed if it aborts)
             std::string head = "{\"e\":\"run\",\"id\":" + std::to_string(++runid) + ",\"fam\":\"" + fam + "\",\"scn\":" + std::to_string(sc) + ",\"sched\":\"" + sched + "\",\"r\":" + std::to_string(r) + ",\"seed\":" + std::to_string(seed);
-            if (sched == "pre1") { head += ",\"plan\":["; for (std::size_t i = 0; i < plans[r].size(); i++) { if (i) head += ","; head += "[" + std::to_string(plans[r][i].first) + "," + std::to_string(plans[r][i].second) + "]"; } head += "]"; }
+            if (sched == "pre1" || sched == "pre2") { head += ",\"plan\":["; for (std::size_t i = 0; i < plans[r].size(); i++) { if (i) head += ","; head += "[" + std::to_string(plans[r][i].first) + "," + std::to_string(plans[r][i].second) + "]"; } head += "]"; }
             head += ",\"init\":["; for (std::size_t i = 0; i < initv.size(); i++) { if (i) head += ","; head += "[" + vh::jbytes(initv[i].first) + "," + std::to_string(initv[i].second) + "]"; } head += "]";
             head += ",\"prog\":["; bool f = true; for (auto& v : prog) for (auto& o : v) { if (!f) head += ","; f = false; head += "[" + std::to_string(o.t) + ",\"" + o.kind + "\"," + vh::jbytes(o.kind == "scan" || o.kind == "iscan" ? o.l : o.k) + "]"; } head += "]";
             cur_line = head + "}";
-            if (sched == "pre1") { vs::S.strat = vs::PLAN; vs::S.plan = plans[r]; }
+            if (sched == "pre1" || sched == "pre2") { vs::S.strat = vs::PLAN; vs::S.plan = plans[r]; }
             else if (sched == "pct") { vs::S.strat = vs::PCT; vs::S.rng.seed(seed * 7919 + sc * 131 + r); for (int i = 0; i < nth; i++) vs::S.prio[i] = (int)(vs::S.rng() % 1000); vs::S.change_points.clear(); for (int i = 0; i < 2; i++) vs::S.change_points.push_back(1 + vs::S.rng() % 150); }
             else { vs::S.strat = vs::RANDOM; vs::S.rng.seed(seed * 7919 + sc * 131 + r); vs::S.switch_pct = 10 + (int)(vs::S.rng() % 50); }
             if (sched == "free") {
@@ -274,6 +315,18 @@ int main(int argc, char** argv) {
             vs::run(bodies, (int)(vs::S.rng() % nth));
             if (sched == "pre1" && plans[r].size() > (std::size_t)nth) { int a = plans[r][0].first; long k = plans[r][0].second; if (vs::S.points[a] <= k || vs::S.pi == 0) { thread_len_known[a] = true; thread_len[a] = vs::S.points[a]; } }
             long steps = vs::S.steps;
+            if (sched == "pre2" && r < 2) {
+                std::vector<long> locks; long n = 0; int who = r == 0 ? 1 : 0;
+                for (auto& e : vs::S.log) if (e.t == who) { n++; if (e.kind == verif::k_ver_cas && e.a == 1) locks.push_back(n); }
+                if (r == 0 && !locks.empty()) pW = locks[0];
+                if (r == 1 && locks.size() >= 2) { pX = locks[locks.size() - 2]; pN = locks.back(); }
+                if (r == 1 && pW > 0 && pX > 0) {
+                    for (long ka = std::max(1L, pW - 10); ka < pW; ka++) for (long kb = pX; kb <= pN + 4; kb++)
+                        { plans.push_back({{1, ka}, {0, kb}, {1, 1000000}, {2, 1000000}, {0, 1000000}, {2, 1000000}, {1, 1000000}, {2, 1000000}});
+                        if (ka == pW - 1) plans.push_back({{1, ka}, {0, kb}, {1, 1000000}, {2, 1000000}, {0, 1000000}, {1, 1000000}, {2, 1000000}}); }
+                    nsched = (long)plans.size();
+                }
+            }
             // C12 under concurrency: per put, the border version words whose counters this call's own unlocks advanced (lock .. unlock of
             // the same thread; a border created locked by a split counts from its version copy) against the reported nodes
             if (rep && sched != "free") for (long t = 0; t < nth; t++) for (auto& o : ops[t]) if (o.kind == "put" || o.kind == "uput") {
@@ -295,15 +348,15 @@ int main(int argc, char** argv) {
             std::vector<std::string> allk = scn.uni; for (auto& kv : initv) if (std::find(allk.begin(), allk.end(), kv.first) == allk.end()) allk.push_back(kv.first);
             std::sort(allk.begin(), allk.end());
             for (std::size_t i = 0; i < allk.size(); i++) { int fv = -1;
-                if (ddl) { fv = find_storage(allk[i]) == status::OK ? 1 : -1; } else { std::pair<char*, std::size_t> o2{nullptr, 0}; status rc = get<char>(&ti, allk[i], o2); fv = rc == status::OK ? vdec(o2.first, o2.second) : -1; }
+                if (ddl) { fv = find_storage(allk[i]) == status::OK ? 1 : -1; } else { xget(&ti, allk[i], fv); }
                 if (i) out += ","; out += "[" + vh::jbytes(allk[i]) + "," + std::to_string(fv) + "]"; }
             out += "],\"fscan\":[";
             if (ddl) { std::vector<std::pair<std::string, tree_instance*>> ls; list_storages(ls); for (std::size_t i = 0; i < ls.size(); i++) { if (i) out += ","; out += "[" + vh::jbytes(ls[i].first) + ",1]"; } }
-            else { std::vector<std::tuple<std::string, char*, std::size_t>> tl; scan<char>(&ti, "", scan_endpoint::INF, "", scan_endpoint::INF, tl, nullptr, 0, false);
-              for (std::size_t i = 0; i < tl.size(); i++) { if (i) out += ","; out += "[" + vh::jbytes(std::get<0>(tl[i])) + "," + std::to_string(vdec(std::get<1>(tl[i]), std::get<2>(tl[i]))) + "]"; } }
+            else { std::vector<std::pair<std::string, int>> tl; xscan(&ti, "", scan_endpoint::INF, "", scan_endpoint::INF, tl, (std::vector<std::pair<node_version64_body, node_version64*>>*)nullptr, 0, false);
+              for (std::size_t i = 0; i < tl.size(); i++) { if (i) out += ","; out += "[" + vh::jbytes(tl[i].first) + "," + std::to_string(tl[i].second) + "]"; } }
             out += "],\"uni\":["; for (std::size_t i = 0; i < scn.uni.size(); i++) { if (i) out += ","; out += vh::jbytes(scn.uni[i]); } out += "]";
             if (ddl && ti.load_root_ptr() == nullptr) out += ",\"dump\":{\"root\":0,\"nodes\":[]}";
-            else { vh::Canon c(&ti); out += ",\"dump\":" + vh::dump_json(c, ddl ? std::function<std::string(link_or_value*)>([](link_or_value* lv) { return std::string(lv->get_value() ? "[\"V\",1]" : "[\"N\"]"); }) : std::function<std::string(link_or_value*)>(valjson)); }
+            else { vh::Canon c(&ti); out += ",\"dump\":" + vh::dump_json(c, ddl ? std::function<std::string(link_or_value*)>([](link_or_value* lv) { return std::string(lv->get_value() ? "[\"V\",1]" : "[\"N\"]"); }) : std::function<std::string(link_or_value*)>(g_inl ? valjson_inl : valjson)); }
             out += "}"; puts(out.c_str());
             for (auto& t : tok) leave(t); leave(setup);
             if (ddl) destroy();
